@@ -2,17 +2,18 @@ CONSTANTS
   MergeFix = TRUE
   LazyChecks = FALSE
   MaxNodes = 4
-  MaxSg = 1
-  Threads = {"main", "w0"}
-  BiPropMode = FALSE
-  Execs = {"pf"}
-  MaxClears = 0
-  MaxEvals = 1
-  MaxEdges = 4
-  MaxMarks = 0
-  PropAllowed = FALSE
+  MaxSg = 2
+  Threads = {"main"}
+  BiPropMode = TRUE
+  Execs = {"st"}
+  MaxClears = 1
+  MaxEvals = 2
+  MaxEdges = 2
+  MaxMarks = 1
+  PropAllowed = TRUE
   SetAllAllowed = TRUE
-  RoundNodes <- RN_4_0
+  LateEdges = FALSE
+  RoundNodes <- RN_3_1
 INIT MCInit
 NEXT MCNext
 CHECK_DEADLOCK FALSE
